@@ -62,6 +62,8 @@ struct Case {
     store: AnnotationStore,
     text: String,
     sels: Vec<R>,
+    /// annotations with several selections (Directional: the order given is kept): id and ranges
+    multi: Vec<(String, Vec<R>)>,
 }
 
 fn build(rng: &mut Rng, thorough: bool, milestone: usize) -> Case {
@@ -76,7 +78,23 @@ fn build(rng: &mut Rng, thorough: bool, milestone: usize) -> Case {
             .annotate(AnnotationBuilder::new().with_id(format!("a{}", i)).with_target(SelectorBuilder::textselector("r", Offset::simple(*b, *e))).with_data("s", "n", i as isize))
             .expect("annotate");
     }
-    Case { store, text, sels }
+    let mut multi = Vec::new();
+    for m in 0..2 {
+        let k = rng.range(2, 3) as usize;
+        let mut picks: Vec<R> = Vec::new();
+        while picks.len() < k.min(sels.len()) {
+            let r = *rng.pick(&sels);
+            if !picks.contains(&r) {
+                picks.push(r);
+            }
+        }
+        let id = format!("multi{}", m);
+        let target = SelectorBuilder::DirectionalSelector(picks.iter().map(|(b, e)| SelectorBuilder::textselector("r", Offset::simple(*b, *e))).collect());
+        if store.annotate(AnnotationBuilder::new().with_id(id.clone()).with_target(target).with_data("s", "multi", m as isize)).is_ok() {
+            multi.push((id, picks));
+        }
+    }
+    Case { store, text, sels, multi }
 }
 
 fn refclass(refs: &[R], len: usize) -> String {
@@ -160,7 +178,14 @@ fn search_case(rep: &mut Report, rng: &mut Rng, ops: &[OpV], thorough: bool) {
         }
         references.push(idx);
     }
-    for refidx in references {
+    let mut references: Vec<(Vec<usize>, Option<String>)> = references.into_iter().map(|r| (r, None)).collect();
+    for (id, ranges) in &case.multi {
+        let idx: Vec<usize> = ranges.iter().filter_map(|r| known.iter().position(|k| (k.begin(), k.end()) == *r)).collect();
+        if idx.len() == ranges.len() {
+            references.push((idx, Some(id.clone())));
+        }
+    }
+    for (refidx, multi_id) in references {
         let refs: Vec<R> = refidx.iter().map(|i| (known[*i].begin(), known[*i].end())).collect();
         for op in ops {
             let o = op.to_op();
@@ -208,6 +233,14 @@ fn search_case(rep: &mut Report, rng: &mut Rng, ops: &[OpV], thorough: bool) {
                     compare(rep, &case, "iterator", op, &refs, got, &merged);
                 }
             }
+            // entry points 6 and 7: an annotation with several selections (taken jointly, as a set), directly and through the
+            // adaptor on an iterator of annotations
+            if let Some(a) = multi_id.as_ref().and_then(|id| store.annotation(id.as_str())) {
+                let got = guard(|| a.related_text(o).map(|t| (t.begin(), t.end())).collect::<Vec<R>>());
+                compare(rep, &case, "multi-annotation", op, &refs, got, &expected);
+                let got = guard(|| std::iter::once(a.clone()).related_text(o).map(|t| (t.begin(), t.end())).collect::<Vec<R>>());
+                compare(rep, &case, "annotations-iterator", op, &refs, got, &expected);
+            }
             if refidx.len() == 1 {
                 // entry point 3: ResultTextSelection::related_text
                 let got = guard(|| known[refidx[0]].related_text(o).map(|t| (t.begin(), t.end())).collect::<Vec<R>>());
@@ -226,7 +259,7 @@ fn search_case(rep: &mut Report, rng: &mut Rng, ops: &[OpV], thorough: bool) {
 }
 
 pub fn run(p: &Params, rep: &mut Report) {
-    rep.rule = "seeded texts of 8-40 (60) codepoints with whitespace runs of 0-12, 4-14 known selections chosen to be nested / crossing / adjacent / zero-width / touching position 0 and the very end / lying in either half; references: single known selections, their annotations, and sets of 2-3 selections; every operator x all/negate/limit(-,0,1,3)/whitespace combination (92 variants) through ResultTextSelection::related_text, ResultItem<Annotation>::related_text, ResultTextSelectionSet::related_text, ResultItem<TextResource>::related_text and the iterator adaptor (related to any of the selections: the merged single-reference answers, each once); expected = brute force over all known selections with the public test(), minus the reference itself (plain Equals: the reference itself). distinct_nontrivial = distinct (entry point, operator variant, reference class) with a non-empty expected result".into();
+    rep.rule = "seeded texts of 8-40 (60) codepoints with whitespace runs of 0-12, 4-14 known selections chosen to be nested / crossing / adjacent / zero-width / touching position 0 and the very end / lying in either half; references: single known selections, their annotations, and sets of 2-3 selections; every operator x all/negate/limit(-,0,1,3)/whitespace combination (92 variants) through ResultTextSelection::related_text, ResultItem<Annotation>::related_text, ResultTextSelectionSet::related_text, ResultItem<TextResource>::related_text the iterator adaptor on selections (related to any of them: the merged single-reference answers, each once), an annotation with 2-3 selections and the adaptor on an iterator of annotations (selections of one annotation taken jointly); expected = brute force over all known selections with the public test(), minus the reference itself (plain Equals: the reference itself). distinct_nontrivial = distinct (entry point, operator variant, reference class) with a non-empty expected result".into();
     rep.assumptions = vec![
         "the meaning of test() is judged by C13, here it is the oracle".into(),
         "references are known (bound) selections; for plain Equals the expected result is the reference selection(s) themselves".into(),
